@@ -129,6 +129,7 @@ func GenSpec(t *rapid.T) *Spec {
 	s.GasOp = uint64(rapid.SampledFrom([]int{0, 1, 10, 1000}).Draw(t, "gasOp"))
 	s.MaxBlockGas = uint64(rapid.SampledFrom([]int{0, 0, 0, 100000, 30000}).Draw(t, "maxBlockGas"))
 	s.MaxTxSize = uint64(rapid.SampledFrom([]int{32768, 32768, 4096}).Draw(t, "maxTxSize"))
+	s.ConsMinGasPrice = uint64(rapid.SampledFrom([]int{0, 0, 0, 0, 1, 3}).Draw(t, "consMinGasPrice"))
 	s.GovVotingPeriod = uint64(rapid.IntRange(1, 3).Draw(t, "govPeriod"))
 	s.GovStakeThresh = uint8(rapid.SampledFrom([]int{67, 90, 100}).Draw(t, "govThreshold"))
 	s.GovMinDeposit = uint64(rapid.SampledFrom([]int{0, 1, 100}).Draw(t, "govDeposit"))
